@@ -432,8 +432,8 @@ def finalize(cov, agg, tier):
 
 def subs(tier):
     return [Sub("fuzzingrid", st.just({}), run_fuzzingrid, quick=1, thorough=1, needs=("fuzzmaps",),
-                enum=lambda t: fuzzrun.campaigns(t, 12000, 1500000), max_wall={"quick": 400, "thorough": 3000}),
-            Sub("blob", blob_cases(), run_blob, quick=6000, thorough=60000),
-            Sub("ingrid", ingrid_cases(), run_ingrid, quick=2400, thorough=20000),
-            Sub("ensemble", ensemble_cases(), run_ensemble, quick=48, thorough=200, shrink_budget=12),
-            Sub("cli", cli_cases(), run_cli, quick=256, thorough=600, needs=("san", "h5x", "shim"), shrink_budget=20)]
+                enum=lambda t: fuzzrun.campaigns(t, 12000, 600000), max_wall={"quick": 400, "thorough": 3000}),
+            Sub("blob", blob_cases(), run_blob, quick=6000, thorough=300000),
+            Sub("ingrid", ingrid_cases(), run_ingrid, quick=2400, thorough=100000),
+            Sub("ensemble", ensemble_cases(), run_ensemble, quick=48, thorough=800, shrink_budget=12),
+            Sub("cli", cli_cases(), run_cli, quick=256, thorough=2400, needs=("san", "h5x", "shim"), shrink_budget=20)]
